@@ -1,6 +1,7 @@
 """Shard-side context: counters, verdict records, deterministic per-case randomness."""
 import hashlib
 import json
+import os
 import sys
 import traceback
 import warnings
@@ -200,8 +201,12 @@ class fp_watch:
             self.ctx.fp_warnings[w.category.__name__ + ":" + str(w.message)[:60]] += 1
         # what a caller running with warnings as errors (python -W error, pytest filterwarnings = error) or with
         # numpy.seterr(all="raise") would have got instead of a result: the floating-point warnings of this request
+        # (warnings raised inside the CALLER's own code - sampling functions, trend callables defined by the workload -
+        # are the caller's business, not the library's)
+        here = os.path.dirname(os.path.abspath(__file__))
         self.tripped = sorted({w.category.__name__ + ": " + str(w.message)[:80] for w in self.log
-                               if issubclass(w.category, RuntimeWarning)})
+                               if issubclass(w.category, RuntimeWarning)
+                               and not os.path.abspath(str(getattr(w, "filename", ""))).startswith(here)})
         # deprecation-class warnings raised from the library's own files: hidden by Python's default filters, an
         # exception for every caller running with warnings as errors - and a result that disappears with the next
         # release of the dependency.  The unchanged tree emits none, on any input of any check.
